@@ -352,6 +352,7 @@ class Consumer(object):
             """Handle the result of the commit attempted by shutdown"""
             self._shutdown_d, d = None, self._shutdown_d
             self.stop()
+            _restore_retry_limit()
             self._shuttingdown = False  # Shutdown complete
             d.callback(self._last_processed_offset)
 
@@ -363,6 +364,7 @@ class Consumer(object):
 
             self._shutdown_d, d = None, self._shutdown_d
             self.stop()
+            _restore_retry_limit()
             self._shuttingdown = False  # Shutdown complete
             d.errback(failure)
 
@@ -388,8 +390,15 @@ class Consumer(object):
         # TODO: This was added as part of coordinated consumer support,
         # but it belongs in the constructor if it is even necessary.
         # don't let commit requests retry forever and prevent shutdown
-        if not self.request_retry_max_attempts:
+        unlimited = not self.request_retry_max_attempts
+        if unlimited:
             self.request_retry_max_attempts = 2
+
+        def _restore_retry_limit():
+            # The limit above is only for the shutdown: a consumer configured to
+            # retry forever must do so again if it is restarted.
+            if unlimited:
+                self.request_retry_max_attempts = 0
 
         # Create a deferred to track the shutdown
         self._shutdown_d = d = Deferred()
